@@ -71,6 +71,8 @@ func (w *smWorld) gr() int {
 // counters reads writerActive/readersActive/pendingWriters inside the mutex's own critical section.
 func (w *smWorld) counters() string {
 	if !tryLockFor(w.im, time.Second) {
+		stalls.Add(1)
+
 		return "m-stuck"
 	}
 	defer w.im.Unlock()
@@ -299,7 +301,7 @@ func runSMCase(r *hx.Run, sub uint64, n int, prefix []arrival, maxOps int, wantN
 func exploreSM(r *hx.Run, n, maxOps, budget int, sample bool) {
 	work := [][]arrival{nil}
 	cases := 0
-	for len(work) > 0 && cases < budget {
+	for len(work) > 0 && cases < budget && !giveUp() {
 		i := len(work) - 1
 		if sample { // the tree does not fit the budget: visit a random part of the frontier instead of one corner
 			i = r.Rng.Intn(len(work))
